@@ -419,12 +419,13 @@ template <int B> struct blk { typedef backend::builtin<static_matrix<double, B, 
 
 // integer matrix with unimodular diagonal blocks (product of unit lower and unit upper triangular
 // integer matrices: the inverse is an integer matrix and the pivot-free LU meets no zero pivot)
-static std::shared_ptr<crsd> cpr_matrix(vr::rng &g, int nb, int B, int extra) {
+static std::shared_ptr<crsd> cpr_matrix(vr::rng &g, int nb, int B, int extra, bool sparse_diag = false) {
+    // sparse_diag: more zeros inside the (still unimodular) diagonal blocks, and they are not stored
     int n = nb * B + extra;
     std::vector<std::vector<double>> D(n, std::vector<double>(n, 0.0));
     for (int ib = 0; ib < nb; ++ib) {
         std::vector<std::vector<double>> L(B, std::vector<double>(B, 0)), U = L;
-        for (int i = 0; i < B; ++i) { L[i][i] = U[i][i] = 1; for (int j = 0; j < i; ++j) L[i][j] = g.range(-1, 1); for (int j = i + 1; j < B; ++j) U[i][j] = g.range(-1, 1); }
+        for (int i = 0; i < B; ++i) { L[i][i] = U[i][i] = 1; for (int j = 0; j < i; ++j) L[i][j] = (sparse_diag && g.coin(0.4)) ? 0 : g.range(-1, 1); for (int j = i + 1; j < B; ++j) U[i][j] = (sparse_diag && g.coin(0.4)) ? 0 : g.range(-1, 1); }
         for (int i = 0; i < B; ++i) for (int j = 0; j < B; ++j) { double s = 0; for (int k = 0; k < B; ++k) s += L[i][k] * U[k][j]; D[ib * B + i][ib * B + j] = s; }
         for (int jb = 0; jb < nb; ++jb) if (jb != ib && g.coin(std::min(0.8, 2.5 / nb))) for (int i = 0; i < B; ++i) for (int j = 0; j < B; ++j) if (g.coin(0.6)) D[ib * B + i][jb * B + j] = g.range(-2, 2);
     }
@@ -432,7 +433,8 @@ static std::shared_ptr<crsd> cpr_matrix(vr::rng &g, int nb, int B, int extra) {
     std::vector<std::vector<std::pair<int, double>>> rows(n);
     for (int i = 0; i < n; ++i) for (int j = 0; j < n; ++j) {
         bool indiag = i < nb * B && j < nb * B && i / B == j / B;
-        if (indiag || D[i][j] != 0) rows[i].push_back({j, D[i][j]});      // the diagonal blocks are stored in full
+        // the diagonal blocks are stored in full, or (sparse_diag) without their zero entries
+        if ((indiag && !sparse_diag) || D[i][j] != 0) rows[i].push_back({j, D[i][j]});
     }
     return vr::from_rows(n, n, rows);
 }
@@ -484,42 +486,63 @@ static void cpr_case(vr::rng &g, const crsd &K, int act, const char *variant) {
     }
     put(o);
 }
-// partial_update with the unchanged matrix: exact inner solves, bitwise equal action before / after
+// partial_update with the unchanged matrix: the global preconditioner S is scripted (it answers with chosen
+// vectors, so that the residual f - A S f the transfer operator Fpp is applied to is far from zero), the
+// pressure preconditioner is exact.  What P is asked for (Fpp (f - A S f)) and the action are compared
+// bitwise before / after partial_update(K, transfer); scalar input and B x B block-valued input.
 template <template <class, class> class CPR, int B, bool Block>
 static void cpr_update_case(vr::rng &g, const crsd &K, int act, const char *variant) {
     const int n = K.nrows;
-    std::vector<std::vector<double>> F; for (int r = 0; r < 3; ++r) { std::vector<double> f(n); for (auto &v : f) v = (g.unit() - 0.5) * 8; F.push_back(f); }
+    std::vector<std::vector<double>> F, Sv;
+    for (int r = 0; r < 3; ++r) { F.push_back(ivec(g, n, -4, 4)); Sv.push_back(ivec(g, n, -3, 3)); }
     for (int transfer = 0; transfer < 2; ++transfer) {
         ChildRes r = in_child([&]() {
-            vr::digest d0, d1; bool same = true;
-            auto run = [&](auto &cpr, auto tagv, int nvec) {
+            vr::digest d0, d1; bool same = true, rpsame = true;
+            auto run = [&](auto &cpr, auto tagv, int nvec, auto &Kin) {
                 typedef decltype(tagv) VecT;
                 backend::numa_vector<VecT> rhs(nvec), out(nvec);
-                std::vector<std::vector<double>> before;
-                for (auto &f : F) { unflat(f, rhs, nvec); cpr.apply(rhs, out); before.push_back(flat(out, nvec)); d0.vec(before.back().data(), before.back().size()); }
-                cpr.partial_update(K, transfer == 1);
-                size_t k = 0; for (auto &f : F) { unflat(f, rhs, nvec); cpr.apply(rhs, out); auto a = flat(out, nvec); d1.vec(a.data(), a.size()); if (memcmp(a.data(), before[k].data(), a.size() * sizeof(double))) same = false; ++k; }
+                std::vector<std::vector<double>> before, rpb;
+                for (size_t k = 0; k < F.size(); ++k) {
+                    unflat(F[k], rhs, nvec); reg<0>().script.assign(1, Sv[k]); reg<1>().script.clear(); reg<1>().rhs.clear();
+                    cpr.apply(rhs, out); before.push_back(flat(out, nvec)); rpb.push_back(reg<1>().rhs.at(0)); d0.vec(before.back().data(), before.back().size());
+                }
+                cpr.partial_update(Kin, transfer == 1);
+                for (size_t k = 0; k < F.size(); ++k) {
+                    unflat(F[k], rhs, nvec); reg<0>().script.assign(1, Sv[k]); reg<1>().script.clear(); reg<1>().rhs.clear();
+                    cpr.apply(rhs, out); auto a = flat(out, nvec); d1.vec(a.data(), a.size());
+                    if (memcmp(a.data(), before[k].data(), a.size() * sizeof(double))) same = false;
+                    auto &rp = reg<1>().rhs.at(0);
+                    if (rp.size() != rpb[k].size() || memcmp(rp.data(), rpb[k].data(), rp.size() * sizeof(double))) rpsame = false;
+                }
             };
             reg<0>().reset(); reg<1>().reset();
-            if (!Block) { typedef CPR<CP, CS> C; typename C::params prm; prm.block_size = B; prm.active_rows = act; C cpr(K, prm); run(cpr, double(), n); }
-            vr::obj o; o.b("same", same).i("d0lo", d0.lo()).i("d0hi", d0.hi()).i("d1lo", d1.lo()).i("d1hi", d1.hi()); return o.done();
+            if (!Block) { typedef CPR<CP, CS> C; typename C::params prm; prm.block_size = B; prm.active_rows = act; C cpr(K, prm); run(cpr, double(), n, K); }
+            else { typedef CPR<CP, typename blk<B>::S> C; typedef static_matrix<double, B, B> VT; auto Kb = adapter::block_matrix<VT>(K);
+                   typename C::params prm; C cpr(Kb, prm); run(cpr, static_matrix<double, B, 1>(), n / B, Kb); }
+            vr::obj o; o.b("same", same).b("rpsame", rpsame).i("d0lo", d0.lo()).i("d0hi", d0.hi()).i("d1lo", d1.lo()).i("d1hi", d1.hi()); return o.done();
         }, 20);
-        vr::obj o; o.str("k", "cprupd").str("variant", variant).i("B", B).i("act", act).i("n", n).b("transfer", transfer == 1).b("hang", r.hang).b("crash", r.crash).i("sig", r.sig);
-        o.raw("res", (r.hang || r.crash || r.text.empty()) ? "{\"same\":false,\"d0lo\":0,\"d0hi\":0,\"d1lo\":1,\"d1hi\":1}" : r.text);
+        vr::obj o; o.str("k", "cprupd").str("variant", variant).i("B", B).i("act", act).i("n", n).b("block", Block).b("transfer", transfer == 1).b("hang", r.hang).b("crash", r.crash).i("sig", r.sig);
+        o.raw("res", (r.hang || r.crash || r.text.empty()) ? "{\"same\":false,\"rpsame\":false,\"d0lo\":0,\"d0hi\":0,\"d1lo\":1,\"d1hi\":1}" : r.text);
         vr::emit(o.done());
     }
 }
 static void mode_cpr() {
     vr::rng g(vr::env_seed() + 1801);
     int reps = vr::env_int("VERIF_REPS", vr::thorough() ? 40 : 8);
+    using preconditioner::cpr; using preconditioner::cpr_drs;
     for (int r = 0; r < reps; ++r) {
         int nb = g.range(2, 4);
-        { auto K = cpr_matrix(g, nb, 2, 0); cpr_case<preconditioner::cpr, 2>(g, *K, 0, "cpr"); cpr_case<preconditioner::cpr_drs, 2>(g, *K, 0, "drs"); cpr_update_case<preconditioner::cpr, 2, false>(g, *K, 0, "cpr"); cpr_update_case<preconditioner::cpr_drs, 2, false>(g, *K, 0, "drs"); }
-        { auto K = cpr_matrix(g, nb, 3, 0); cpr_case<preconditioner::cpr, 3>(g, *K, 0, "cpr"); cpr_case<preconditioner::cpr_drs, 3>(g, *K, 0, "drs"); cpr_update_case<preconditioner::cpr, 3, false>(g, *K, 0, "cpr"); }
-        { auto K = cpr_matrix(g, nb, 4, 0); cpr_case<preconditioner::cpr, 4>(g, *K, 0, "cpr"); }
+        { auto K = cpr_matrix(g, nb, 2, 0); cpr_case<cpr, 2>(g, *K, 0, "cpr"); cpr_case<cpr_drs, 2>(g, *K, 0, "drs"); cpr_update_case<cpr, 2, false>(g, *K, 0, "cpr"); cpr_update_case<cpr_drs, 2, false>(g, *K, 0, "drs"); cpr_update_case<cpr, 2, true>(g, *K, 0, "cpr"); }
+        { auto K = cpr_matrix(g, nb, 3, 0); cpr_case<cpr, 3>(g, *K, 0, "cpr"); cpr_case<cpr_drs, 3>(g, *K, 0, "drs"); cpr_update_case<cpr, 3, false>(g, *K, 0, "cpr"); cpr_update_case<cpr, 3, true>(g, *K, 0, "cpr"); }
+        { auto K = cpr_matrix(g, nb, 4, 0); cpr_case<cpr, 4>(g, *K, 0, "cpr"); if (r % 2 == 0) cpr_update_case<cpr, 4, true>(g, *K, 0, "cpr"); }
+        // diagonal blocks with structurally missing entries (scalar input only stores the non-zeros;
+        // the block adapter fills them in): the same weights, the same pressure matrix, the same action
+        { auto K = cpr_matrix(g, nb + 1, 2, 0, true); cpr_case<cpr, 2>(g, *K, 0, "cpr"); cpr_update_case<cpr, 2, false>(g, *K, 0, "cpr"); }
+        { auto K = cpr_matrix(g, nb + 1, 3, 0, true); cpr_case<cpr, 3>(g, *K, 0, "cpr"); cpr_case<cpr_drs, 3>(g, *K, 0, "drs"); cpr_update_case<cpr, 3, false>(g, *K, 0, "cpr"); cpr_update_case<cpr, 3, true>(g, *K, 0, "cpr"); }
+        { auto K = cpr_matrix(g, nb + 1, 4, 0, true); cpr_case<cpr, 4>(g, *K, 0, "cpr"); cpr_update_case<cpr, 4, false>(g, *K, 0, "cpr"); }
         // active_rows: trailing rows (wells) that are not part of the blocked reservoir unknowns
-        { int ex = g.range(1, 3); auto K = cpr_matrix(g, nb, 2, ex); cpr_case<preconditioner::cpr, 2>(g, *K, nb * 2, "cpr"); cpr_case<preconditioner::cpr_drs, 2>(g, *K, nb * 2, "drs"); cpr_update_case<preconditioner::cpr, 2, false>(g, *K, nb * 2, "cpr"); }
-        { int ex = g.range(1, 2); auto K = cpr_matrix(g, nb, 3, ex); cpr_case<preconditioner::cpr, 3>(g, *K, nb * 3, "cpr"); }
+        { int ex = g.range(1, 3); auto K = cpr_matrix(g, nb, 2, ex); cpr_case<cpr, 2>(g, *K, nb * 2, "cpr"); cpr_case<cpr_drs, 2>(g, *K, nb * 2, "drs"); cpr_update_case<cpr, 2, false>(g, *K, nb * 2, "cpr"); }
+        { int ex = g.range(1, 2); auto K = cpr_matrix(g, nb, 3, ex, r % 2 == 1); cpr_case<cpr, 3>(g, *K, nb * 3, "cpr"); }
     }
 }
 // O: the two-stage formula against a long double recomputation, scripted non-integer S, exact P
@@ -553,14 +576,31 @@ static void mode_cprO() {
     int reps = vr::env_int("VERIF_REPS", vr::thorough() ? 60 : 12);
     for (int r = 0; r < reps; ++r) {
         int nb = g.range(2, 12);
-        { auto K = cpr_matrix(g, nb, 2, 0); cprO_case<2>(g, *K, 0); }
-        { auto K = cpr_matrix(g, nb, 3, g.range(0, 2)); cprO_case<3>(g, *K, nb * 3); }
-        { auto K = cpr_matrix(g, nb, 4, 0); cprO_case<4>(g, *K, 0); }
+        { auto K = cpr_matrix(g, nb, 2, 0, r % 3 == 1); cprO_case<2>(g, *K, 0); }
+        { auto K = cpr_matrix(g, nb, 3, g.range(0, 2), r % 2 == 1); cprO_case<3>(g, *K, nb * 3); }
+        { auto K = cpr_matrix(g, nb, 4, 0, r % 2 == 0); cprO_case<4>(g, *K, 0); }
     }
 }
 
 // ================================================================== deflated solver
-template <class Solver> static void defl_case(vr::rng &g, const crsd &A, int nvec, const char *sname) {
+// row-wise strictly diagonally dominant, numerically non-symmetric (convection-like) M-matrix
+static std::shared_ptr<crsd> nonsym_matrix(vr::rng &g, int n) {
+    std::vector<std::vector<std::pair<int, double>>> rows(n);
+    for (int i = 0; i < n; ++i) {
+        double s = 0;
+        for (int j = 0; j < n; ++j) {
+            if (j == i) continue;
+            bool on = std::abs(i - j) == 1 || g.coin(2.0 / n);
+            if (!on) continue;
+            double w = (j > i ? 1.0 : 3.0) * g.range(1, 3) * 0.5 + g.unit() * 0.25;      // upwind: a_ij != a_ji
+            rows[i].push_back({j, -w}); s += w;
+        }
+        rows[i].push_back({i, s + 1.0 + g.unit()});
+        std::sort(rows[i].begin(), rows[i].end());
+    }
+    return vr::from_rows(n, n, rows);
+}
+template <class Solver> static void defl_case(vr::rng &g, const crsd &A, int nvec, const char *sname, bool symmetric = true) {
     typedef relaxation::as_preconditioner<BE, relaxation::spai0> Precond;
     typedef deflated_solver<Precond, Solver> DS;
     const int n = A.nrows;
@@ -568,7 +608,7 @@ template <class Solver> static void defl_case(vr::rng &g, const crsd &A, int nve
     for (int j = 0; j < nvec; ++j) { int b = j * n / nvec, e = (j + 1) * n / nvec; for (int i = b; i < e; ++i) Z[j * n + i] = 1; }
     if (nvec > 1 && g.coin()) for (int i = 0; i < n; ++i) Z[(nvec - 1) * n + i] = g.range(-2, 2) + (i == 0);     // one non-indicator vector
     typename DS::params prm; prm.nvec = nvec; prm.vec = Z.data(); prm.solver.tol = 1e-10; prm.solver.maxiter = 2000;
-    vr::obj o; o.str("k", "defl").str("solver", sname).i("n", n).i("nvec", nvec);
+    vr::obj o; o.str("k", "defl").str("solver", sname).i("n", n).i("nvec", nvec).b("symmetric", symmetric);
     try {
         DS ds(A, prm);
         std::vector<double> b(n), x(n, 0.0); for (auto &v : b) v = g.range(-4, 4) + g.unit();
@@ -600,6 +640,10 @@ static void mode_defl() {
         defl_case<solver::cg<BE>>(g, *A, nvec, "cg");
         defl_case<solver::bicgstab<BE>>(g, *A, nvec, "bicgstab");
         if (r % 2 == 0) defl_case<solver::gmres<BE>>(g, *A, nvec, "gmres");
+        // numerically non-symmetric systems: E = Z^T A Z is not symmetric either
+        auto N = nonsym_matrix(g, g.range(20, vr::thorough() ? 200 : 80));
+        defl_case<solver::bicgstab<BE>>(g, *N, nvec, "bicgstab", false);
+        defl_case<solver::gmres<BE>>(g, *N, nvec, "gmres", false);
     }
 }
 
